@@ -139,3 +139,6 @@ func (fr *Frame) Headers() []int {
 	sort.Ints(out)
 	return out
 }
+
+// CurrentGuard returns the absolute path condition at the instruction being evaluated.
+func (fr *Frame) CurrentGuard() *Term { return fr.absGuard(fr.curBlock) }
